@@ -644,6 +644,10 @@ fn check_case(case: &Value) -> Vec<Violation> {
             doc_versions().iter().filter(|(a, _)| a == n).flat_map(|(a, d)| check_doc_version(a, d)).collect()
         }
         "infer_version" => check_infer(case),
+        "forged_manifest" | "flag_history" => {
+            let mut cov = Cov::new();
+            crate::c37_ds::check_case(case, &mut cov)
+        }
         "doc_flag" | "flag_unknown" | "version_string" => {
             let mut cov = Cov::new();
             let mut v = vec![];
@@ -691,13 +695,32 @@ pub fn run(ctx: &Ctx) -> Outcome {
         viol.extend(check_infer(c));
     }
     cov.outcomes.insert("infer-cases".into(), icases.len() as u64);
+    // dataset level: forged manifests with unknown flags, flags / storage versions along histories
+    let mut dcases = crate::c37_ds::forged_cases(!ctx.quick());
+    dcases.extend(crate::c37_ds::history_cases());
+    let n_dcases = dcases.len();
+    // the 4000-column fixtures first (longest items)
+    dcases.sort_by_key(|c| std::cmp::Reverse(c["columns"].as_u64().unwrap_or(0)));
+    let dres = vcore::par_map(dcases, ctx.workers, |_, c| {
+        let mut cov = Cov::new();
+        cov.eval(Some(vcore::hash64(c.to_string().as_bytes())));
+        let v = crate::c37_ds::check_case(&c, &mut cov);
+        cov.outcome(if v.is_empty() { "dataset-case/ok" } else { "dataset-case/FAIL" });
+        (cov, v)
+    });
+    for (c, v) in dres {
+        cov.merge(c);
+        viol.extend(v);
+    }
+    cov.outcomes.insert("dataset-cases".into(), n_dcases as u64);
+    cov.sample(json!({"kind":"forged_manifest","store":"memory","columns":4000,"word":64,"mixed":true,"target":"reader"}));
     cov.sample(icases[icases.len() / 3].clone());
     cov.fill(&mut out,
-&format!("odometer over: {}x{} flag words ({low_bits} low bits x {{none, one higher bit}}); {} manifest content shapes (<= {max_frags} fragments x 96 switch combinations) for apply_feature_flags; 6 version variants, 25+4 number pairs, all documented names x 3 case variants, 20 near-miss strings; all layouts of <=3 data files (9 file versions) in <=2 fragments x deprecated-v2 flag. non-trivial = word mixing known and unknown bits or non-zero known word / manifest with fragments and at least one flag-relevant content / known number pair / every file layout", 65 - low_bits, 1u64 << low_bits, cases.len()),
+&format!("odometer over: {}x{} flag words ({low_bits} low bits x {{none, one higher bit}}); {} manifest content shapes (<= {max_frags} fragments x 96 switch combinations) for apply_feature_flags; 6 version variants, 25+4 number pairs, all documented names x 3 case variants, 20 near-miss strings; all layouts of <=3 data files (9 file versions) in <=2 fragments x deprecated-v2 flag. non-trivial = word mixing known and unknown bits or non-zero known word / manifest with fragments and at least one flag-relevant content / known number pair / every file layout; dataset level: forged manifests (unknown reader / writer flag word alone and mixed with the flags of the table) on tables of 3/400/4000 columns in memory and 3/400 columns in a local directory, and 6 flag histories (stable row ids x storage version)", 65 - low_bits, 1u64 << low_bits, cases.len()),
         true);
     out.set("doc_notes", json!(notes));
     out.assume("known flag set = OR of the FLAG_* constants of lance-table, cross-checked against the table in docs/src/format/table/versioning.md; reader/writer requirement per flag taken from that table (bit 32 from the constant's doc comment)");
-    out.assume("dataset-level oracle (flags of committed versions reflect contents, forged manifests refused on open/write, data files carry the table's storage version) is not part of this binary (no `lance` crate)");
+    out.assume("dataset level: forged manifests are re-encoded copies of the latest manifest stored as the next version (MemStore::write_raw / a file in a real directory); block sizes 64 KiB (memory scheme) and 4 KiB (local) are the ones lance-io infers");
     out.violations = viol;
     out
 }
